@@ -248,6 +248,56 @@ func runC10(rc *RunCtx) {
 			}
 		}
 	}
+	// many rotations of one role slot: after each, the new holder is served and the previous one refused
+	for slot := 0; slot < 4; slot++ {
+		if slot%rc.NShards != rc.Shard {
+			continue
+		}
+		e, err := StdEngine(rc, false, false, nil)
+		if err != nil {
+			continue
+		}
+		for rot := 0; rot < rc.Pick(14, 40); rot++ {
+			nw := Acct(4 + rot%3)
+			var upd []sdk.Msg
+			var probe func(from string) sdk.Msg
+			var old string
+			switch slot {
+			case 0:
+				old = e.M.Owner
+				upd = []sdk.Msg{&ct.MsgUpdateOwner{From: old, NewOwner: nw}, &ct.MsgAcceptOwner{From: nw}}
+				probe = func(from string) sdk.Msg { return &ct.MsgUpdateMaxMessageBodySize{From: from, MessageSize: uint64(8000 + rot)} }
+			case 1:
+				old = e.M.AM
+				upd = []sdk.Msg{&ct.MsgUpdateAttesterManager{From: e.M.Owner, NewAttesterManager: nw}}
+				probe = func(from string) sdk.Msg { return &ct.MsgUpdateSignatureThreshold{From: from, Amount: uint32(1 + rot%3)} }
+			case 2:
+				old = e.M.Pauser
+				upd = []sdk.Msg{&ct.MsgUpdatePauser{From: e.M.Owner, NewPauser: nw}}
+				probe = func(from string) sdk.Msg {
+					if rot%2 == 0 {
+						return &ct.MsgPauseBurningAndMinting{From: from}
+					}
+					return &ct.MsgUnpauseBurningAndMinting{From: from}
+				}
+			default:
+				old = e.M.TC
+				upd = []sdk.Msg{&ct.MsgUpdateTokenController{From: e.M.Owner, NewTokenController: nw}}
+				probe = func(from string) sdk.Msg {
+					return &ct.MsgSetMaxBurnAmountPerMessage{From: from, LocalToken: "uusdc", Amount: mkInt(big.NewInt(int64(100 + rot)))}
+				}
+			}
+			for _, m := range upd {
+				e.Exec(Tx{Msgs: msgs1(m), Note: fmt.Sprintf("C10 rotation %d of the %s slot", rot+1, roleNames[[]int{0, 2, 3, 4}[slot]])})
+			}
+			if old != nw {
+				r1 := e.Exec(Tx{Msgs: msgs1(probe(old)), Note: "C10 previous holder after many rotations"})
+				rc.Cov.Cell("C10_many_rotations", fmt.Sprintf("slot%d/previous-holder/%s", slot, okWord(r1.OK)))
+			}
+			r2 := e.Exec(Tx{Msgs: msgs1(probe(nw)), Note: "C10 new holder after many rotations"})
+			rc.Cov.Cell("C10_many_rotations", fmt.Sprintf("slot%d/new-holder/%s", slot, okWord(r2.OK)))
+		}
+	}
 	// keyless module accounts (authority, gov, the module itself, ...) and remarkable addresses are ordinary outsiders
 	if rc.Shard == 1%rc.NShards {
 		if e, err := StdEngine(rc, false, false, nil); err == nil {
